@@ -166,6 +166,14 @@ def run(ctx):
                 ok = True
         c.ob("R7", ok, sel, "selected-once-by-identity", "a winner is appended only if its identity was not selected yet in this pass" if ok else
              "winners are appended without the identity de-duplication: a transition declared on an ancestor shared by N regions fires N times", x)
+        # the identity is recorded next to the append (otherwise the test above never becomes true)
+        seen_sets = {norm(cp[2]) for a, pol in guards_at(sel, x) for cp in [compare_parts(a)] if cp and isinstance(cp[1], ast.NotIn) and pol and "id(" in norm(cp[0])}
+        adds = [y for y in own_nodes(sel.node) if isinstance(y, ast.Call) and isinstance(y.func, ast.Attribute) and y.func.attr == "add" and norm(y.func.value) in seen_sets
+                and y.args and "id(" in norm(y.args[0]) and norm(x.args[0]) in norm(y.args[0])]
+        same_guards = [y for y in adds if {(norm(a), pol) for a, pol in guards_at(sel, y)} == {(norm(a), pol) for a, pol in guards_at(sel, x)}]
+        c.ob("R7", bool(same_guards) or not ok, sel, "selected-identity-recorded", "the identity of an appended winner is recorded in the same branch" if same_guards else
+             "the identity of an appended winner is never recorded in the 'seen' set: the de-duplication test is always true and a transition declared on "
+             "an ancestor shared by N regions fires N times", x)
     # ---- R5 leaf order is a total order ----------------------------------------
     shared.set_order(ctx, "R5", ("base_interpreter",),
                      only_funcs={"BaseInterpreter._select_transitions", "BaseInterpreter._collect_eligible_transitions"})
